@@ -803,6 +803,10 @@ func fixedCorpus() []fixedCase {
 	add("grandpa_message", "commit: 2^30-1 precommits claimed", cat([]byte{1}, make([]byte, 16+36), scaleInflations[0]))
 	add("grandpa_message", "commit: 2^20 precommits claimed, one present", cat([]byte{1}, make([]byte, 16+36), scaleInflations[4], make([]byte, 36)))
 	add("grandpa_message", "catch-up response: 2^32-1 prevotes claimed", cat([]byte{4}, make([]byte, 16), scaleInflations[2]))
+	// C33-K1 (fixed): the wrapper kept the receive buffer's slice; its witness and a vote message held across reuse
+	add("consensus_message", "one byte 00", []byte{0})
+	add("consensus_message", "empty", nil)
+	add("consensus_message", "vote message", cat([]byte{0}, make([]byte, 16), []byte{1}, make([]byte, 36+64+32)))
 	add("light_request", "empty", nil)
 	add("light_request", "method claiming 2^30 bytes", cat([]byte{0}, scaleInflations[1]))
 	add("light_response", "header vector 2^30-1", cat([]byte{0, 0}, scaleInflations[0]))
@@ -867,9 +871,6 @@ func TestVerifC33(t *testing.T) {
 	// among them (for the decoders whose message type has such fields); writes to decoded fields
 	for i := range ds {
 		r.Floor("recheck_ff:"+ds[i].name, 50)
-		if ds[i].name == "consensus_message" && r.IsOpen("C33-K1") {
-			continue // known finding: the wrapper does not survive the 0xFF overwrite, it is not held any longer
-		}
 		r.Floor("recheck_next:"+ds[i].name, 50)
 	}
 	for _, name := range []string{"block_announce", "transaction", "block_response", "state_request", "state_response",
